@@ -67,6 +67,23 @@ Theorem C09_dce_keeps_roots : forall g fuel s, root g s = true -> is_used (S fue
 Proof. exact dce_keeps_roots. Qed.
 Print Assumptions C09_dce_keeps_roots.
 
+(* the initializer of a declared variable is evaluated in every build mode, used or not, whenever there is
+   something to evaluate at run time: dead code elimination drops the variable, never its initializer.
+   dead_init_emitted is the condition of visitors.VarDecl's branch for eliminated variables as scraped: an
+   added conjunct (e.g. the analyzer's `sideeffect` attribute, which field access and indexing do not
+   propagate) breaks these proofs *)
+Theorem C09_unused_initializer_evaluated : forall nodce used i, needs_eval i = true -> init_evaluated nodce used i = true.
+Proof. exact init_always_evaluated. Qed.
+Print Assumptions C09_unused_initializer_evaluated.
+
+Theorem C09_dead_initializer_kept_whatever_shape : forall e, dead_init_emitted (info_of e) = true.
+Proof. exact dead_init_any_shape. Qed.
+Print Assumptions C09_dead_initializer_kept_whatever_shape.
+
+Theorem C09_sideeffect_attr_incomplete : exists e, effectful e = true /\ attr_se e = false.
+Proof. exact se_attr_incomplete. Qed.
+Print Assumptions C09_sideeffect_attr_incomplete.
+
 (* ---- configurations (facts about the scraped tables) ---- *)
 Theorem C09_base_flags_always : forall gcc c,
   has_flag F_fwrapv (cflags_of gcc c) = true /\ has_flag F_fno_strict_aliasing (cflags_of gcc c) = true.
